@@ -39,6 +39,7 @@ from ..common import rng_for, digest
 from ..impl import runner as R
 from ..impl import sched_ctl as S
 from ..impl import c09_vtime as VT
+from ..impl import c09_affinity as AF
 
 PARAMS = [(16, 16), (32, 32), (8, 32), (16, 64), (12, 12)]
 
@@ -1129,15 +1130,93 @@ def run(out, drv, info):
             else:
                 out.traces_validated += 1
                 out.count(f'accepted:{kind}' + (':hang-explained-by-model' if kind == 'snapshot' and impl.get('hang') else ''))
+    affinity_cases(out, drv, quick)
     out.extra['schedules'] = len(results) - infra
     if infra and infra > len(results) // 4 and info.get('proof_ok'):
         # (with a broken proof the verdict is a violation anyway; an implementation that cannot even be constructed is not an infrastructure problem)
         raise RuntimeError('too many infrastructure errors: ' + str(out.extra.get('infra_errors', [])[:1]))
 
 
+def affinity_verdict(case, res, m):
+    """→ (violations [(sig, what)], disagreements [what]) of one slot-queue affinity run against the property and against `slotq.run`"""
+    viol, dis = [], []
+    if res.get('outcome') == 'hang':
+        viol.append(('restore:hang:slot-request-pre-empted-before-it-registers',
+                     f"restore with {case['concurrent']} connection(s) of {res.get('chunks')} chunk object(s) did not terminate within {case['hang_s']} s under a schedule that "
+                     f"pre-empts the event-loop thread between a slot request's emptiness test and its registration: {res.get('qsize')} slot(s) sit in the queue while "
+                     f"{res.get('waiters')} request(s) wait for one; {res.get('offloop_puts')} give-back(s) were executed by a thread other than the loop thread"))
+    elif res.get('outcome') != 'ok':
+        viol.append(('restore:schedule-dependent:' + str(res.get('outcome')), f"restore under a pre-emption between a slot request's test and its registration ended with {res.get('outcome')}: {res.get('detail')}"))
+    elif not res.get('tree_ok'):
+        viol.append(('restore:result-differs', 'restored tree differs under a pre-emption between a slot request\'s test and its registration'))
+    if m is not None:
+        if 'error' in m:
+            dis.append('driver: ' + str(m['error']))
+        else:
+            if not m['accepted']:
+                dis.append(f"the queue's observed micro-steps are not a run of SlotQ.step (event {m['upto']}: {res['events'][m['upto']:m['upto'] + 1]})")
+            else:
+                if m['lostWakeup'] != (res.get('outcome') == 'hang'):
+                    dis.append(f"model lostWakeup = {m['lostWakeup']} but the real restore outcome is {res.get('outcome')}")
+                if res.get('outcome') in ('ok', 'hang') and (m['items'] != res.get('qsize') or m['parked'] != res.get('waiters')):
+                    dis.append(f"final counts differ: model items/parked {m['items']}/{m['parked']}, real queue {res.get('qsize')}/{res.get('waiters')}")
+            if res.get('offloop_puts') and m.get('onLoopOnly'):
+                dis.append(f"{res['offloop_puts']} give-back(s) ran on a foreign thread although Gen.slotQueueOnLoopOnly = true")
+    return viol, dis
+
+
+def affinity_cases(out, drv, quick):
+    """thread affinity of the slot queue: the real restore under the pre-emption between `while self.empty()` and `_getters.append` of
+    `asyncio.Queue.get` (child processes), replayed on `SlotQ.step` (`slotq.run`)"""
+    from concurrent.futures import ThreadPoolExecutor as _TP
+    r = rng_for(out.seed, 'C09-affinity')
+    cases = AF.gen_cases(r, 8 if quick else 40)
+    with _TP(8) as ex:
+        results = list(ex.map(lambda c: _safe_aff(c), cases))
+    for case, res in zip(cases, results):
+        if res.get('outcome') == 'infra':
+            out.count('affinity:infra')
+            out.extra.setdefault('infra_errors', []).append('affinity: ' + str(res.get('detail'))[-300:])
+            continue
+        out.case({'kind': 'slot-affinity', 'concurrent': case['concurrent'], 'sizes': case['sizes'], 'chunk': case['chunk'], 'encrypted': case['encrypted'],
+                  'events': len(res.get('events', []))}, res.get('windows', 0) > 0)
+        out.count('affinity:runs')
+        out.count('affinity:windows-between-test-and-registration', res.get('windows', 0))
+        out.count(f"affinity:slots:{case['concurrent']}")
+        if res.get('offloop_puts'):
+            out.count('affinity:give-backs-on-a-foreign-thread', res['offloop_puts'])
+        m = drv.ask({'op': 'slotq.run', 'n': res['n'], 'events': res.get('events', [])}) if drv is not None else None
+        viol, dis = affinity_verdict(case, res, m)
+        rp = {'kind': 'slot-affinity', 'case': case, 'events': res.get('events'), 'outcome': res.get('outcome')}
+        for sig, what in viol:
+            out.violation(sig, what, rp)
+        for what in dis:
+            out.disagreement('slot queue: ' + what, rp)
+        if m is not None and not dis:
+            out.traces_validated += 1
+            out.count('accepted:slotq')
+
+
+def _safe_aff(case):
+    try:
+        return AF.run_case(case)
+    except Exception as e:  # noqa: BLE001
+        return {'outcome': 'infra', 'detail': repr(e)}
+
+
 def replay(path, drv):
     d = json.load(open(path))
     rp = d.get('replay', d)
+    if rp.get('kind') == 'slot-affinity':
+        res = _safe_aff(rp['case'])
+        m = drv.ask({'op': 'slotq.run', 'n': res['n'], 'events': res.get('events', [])}) if drv is not None and 'n' in res else None
+        viol, dis = affinity_verdict(rp['case'], res, m)
+        for sig, what in viol:
+            print('violation', sig, what)
+        for what in dis:
+            print('disagreement', what)
+        print(f"slot-affinity case re-run: outcome {res.get('outcome')}, {len(viol)} violations")
+        return 1 if viol or dis else 0
     if rp.get('kind') != 'schedule':
         print('replay kind not supported')
         return 2
